@@ -395,6 +395,7 @@ class Interp:
         self.domain = domain
         self.max_depth = max_depth
         self.max_states = max_states
+        self.max_trips = 600   # iterations of one `while` loop along one path before the analysis gives up on it
         self.summaries = {}
         self.in_progress = set()
         self.changed = False
@@ -1425,22 +1426,24 @@ class Interp:
     def _while(self, s, st, fr):
         out = []
         seen = set()
-        work = [st]
+        work = [(st, 0)]
         exits = []
         while work:
-            cur = work.pop()
+            cur, trips = work.pop()
             if cur in seen:
                 continue
             seen.add(cur)
             if len(seen) > self.max_states:
                 raise Undecided(f"loop state set exceeded its budget in the loop at line {s.lineno} of {fr.name}")
+            if trips > self.max_trips:
+                raise Undecided(f"the loop at line {s.lineno} of {fr.name} does not end within {self.max_trips} iterations")
             for br, s2 in self.branch(s.test, cur, fr):
                 if br == "exc":
                     out.append(("raise", s2.value, s2.state))
                 elif br:
                     for kind, payload, s3 in self.exec_block(s.body, [s2], fr):
                         if kind in ("next", "continue"):
-                            work.append(s3)
+                            work.append((s3, trips + 1))
                         elif kind == "break":
                             out.append(("next", None, s3))
                         else:
